@@ -115,6 +115,62 @@ def pl_case(has_cost, has_payoff, first, fname='pl'):
     return build
 
 
+PL_BATTERY = '''
+import pfhedge.nn.functional as F
+g = torch.Generator().manual_seed(int(W.get("seed", 0)))
+bad = []
+def ref(spot, unit, cost, payoff, first):
+    N_, H_, T_ = spot.shape
+    out = []
+    for n in range(N_):
+        acc = 0.0 if payoff is None else -float(payoff[n])
+        for h in range(H_):
+            c = 0.0 if cost is None else cost[h]
+            s, u = spot[n, h].tolist(), unit[n, h].tolist()
+            for t in range(T_ - 1):
+                acc += u[t] * (s[t + 1] - s[t]) - c * abs(u[t + 1] - u[t]) * s[t + 1]
+            if first: acc -= c * abs(u[0]) * s[0]
+        out.append(acc)
+    return out
+for dtype in (torch.float64, torch.float32):
+    for (N_, H_, T_) in ((1, 1, 2), (2, 3, 21), (3, 1, 257), (2, 2, 258), (2, 1, 300), (1, 4, 513), (2, 1, 777), (1, 2, 1030)):
+        spot = (torch.rand(N_, H_, T_, generator=g, dtype=torch.float64) + 0.5).to(dtype)
+        unit = (torch.randn(N_, H_, T_, generator=g, dtype=torch.float64)).to(dtype)
+        payoff = torch.randn(N_, generator=g, dtype=torch.float64).to(dtype)
+        for cost in (None, [0.0] * H_, [2.0 ** -10 * (k + 1) for k in range(H_)]):
+            for pay in (None, payoff):
+                for first in (True, False):
+                    for fn in ("pl", "terminal_value"):
+                        got = getattr(F, fn)(spot, unit, cost=cost, payoff=pay, deduct_first_cost=first)
+                        want = ref(spot.to(torch.float64), unit.to(torch.float64), cost, None if pay is None else pay.to(torch.float64), first)
+                        tol = (1e-9 if dtype == torch.float64 else 2e-3) * max(1.0, max(abs(w_) for w_ in want))
+                        if tuple(got.shape) != (N_,) or got.dtype != dtype or any(abs(float(a_) - b_) > tol for a_, b_ in zip(got, want)):
+                            bad.append((fn, str(dtype)[6:], "N,H,T=%s" % ((N_, H_, T_),), "cost=%s" % (None if cost is None else "rates"), "payoff=%s" % (pay is not None), "first=%s" % first,
+                                        "max error %.3g" % max(abs(float(a_) - b_) for a_, b_ in zip(got, want))))
+result = {"got": [str(b) for b in bad][:8], "ref": []}
+'''
+
+
+def battery_ob(tier, seed):
+    """bounded stand-in next to the symbolic proof: real torch against a plain Python loop on LONG horizons (up to 1030 steps) - the route that
+    still decides when a change puts pl out of the executor's reach (e.g. a new loop over blocks of time steps)"""
+    import time
+    from pfv.framework import Obligation, Verdict, real_exec
+
+    def check():
+        t0 = time.time()
+        r = real_exec(PL_BATTERY, {'seed': seed}, timeout=1200)
+        if not r.get('ok'):
+            real_raise = r.get('exception') not in (None, 'NoResult', 'Timeout') and '/pfhedge/' in (r.get('traceback') or '')
+            return Verdict('refuted' if real_raise else 'unknown', 'bounded: real torch battery', time.time() - t0, 'the battery raised: %s' % str(r)[:300], witness={'exception': r.get('exception')}, replay={'real': r, 'confirmed': real_raise})
+        got = r['result']['got']
+        if got:
+            return Verdict('refuted', 'bounded: real torch battery', time.time() - t0, '%d case(s) differ from the wealth identity, first: %s' % (len(got), got[0][:300]), witness={'instance': got[0]}, replay={'real': r, 'confirmed': True})
+        return Verdict('proved', 'bounded: real torch battery', time.time() - t0, 'equal on the battery', sample={'claim': 'BOUNDED: pl / terminal_value vs a Python loop on real torch'})
+    return Obligation('C01/pl/long-horizon-battery[bounded]', 'post', 'pfhedge.nn.functional.pl', check, [PROP], bounded=True,
+                      clause='BOUNDED: pl and terminal_value equal the wealth identity computed by a plain Python loop on real torch for (N,H,T) up to (2,4,1030) - horizons 2, 21, 257, 258, 300, 513, 777, 1030 - float32/float64, cost None / zeros / positive, payoff or not, both first-cost flags')
+
+
 def build(tier, seed):
     from pfv.torchlib import import_pfhedge
     import_pfhedge()
@@ -130,6 +186,7 @@ def build(tier, seed):
     obs.append(fc.contract_ob('C01/pl/raises[shape]', 'pfhedge.nn.functional.pl', [PROP], raises_case('unit'), 'RuntimeError iff unit.size() != spot.size()', kind='raises'))
     obs.append(fc.contract_ob('C01/pl/raises[payoff]', 'pfhedge.nn.functional.pl', [PROP], raises_case('payoff'), 'RuntimeError iff payoff is not of shape (N,)', kind='raises'))
     obs.append(fc.contract_ob('C01/canary/cost-at-old-price', '', [PROP], canary_case(), 'CANARY (must be refuted): cost charged at the price before the trade', kind='canary'))
+    obs.append(battery_ob(tier, seed))
     try:
         from contracts import hedging
         obs.extend(hedging.c01_obligations(seed))
@@ -137,6 +194,7 @@ def build(tier, seed):
         pass
     return {'obligations': obs, 'functions': FUNCTIONS, 'assumptions': ASSUMPTIONS, 'level': 'proof',
             'trusted_base': ['pfv executor + torch shim', 'Sigma-normaliser (linearity, range grouping, point-wise reduction)', 'z3 QF_NRA+UF'],
+            'bounded_note': 'C01/pl/long-horizon-battery[bounded]: finite battery on real torch against a Python loop (never counted as discharged)',
             'note': 'pl runs from /repo on (N,H,T) tensors with symbolic N, H, T; the equality with the Sigma-term of the property is reduced to point-wise obligations in a fresh (n,h,t).'}
 
 
